@@ -922,4 +922,87 @@ theorem blocks_meta_eq : ∀ (n : Nat) (ts : List Tok), ts.length ≤ n →
       rw [blocks_next_MB ts b rest hn, ih rest (by omega), List.filter_cons]
       cases isMetaBlock b <;> simp
 
+/-! ### front matter split (C04) -/
+
+theorem blocks_splitInclusive_flatten (s : List Char) : (splitInclusive s).flatten = s := by
+  induction s with
+  | nil => rfl
+  | cons c t ih =>
+    unfold splitInclusive
+    split
+    · simp [ih]
+    · split
+      · rename_i h0
+        rw [h0] at ih
+        simp only [List.flatten_nil] at ih
+        simp [← ih]
+      · rename_i l ls h0
+        rw [h0] at ih
+        simp only [List.flatten_cons] at ih ⊢
+        rw [← ih]; simp
+
+theorem blocks_linesWithOffset_text (ls : List (List Char)) (off : Nat) :
+    (linesWithOffset ls off).flatMap (·.1) = ls.flatten := by
+  induction ls generalizing off with
+  | nil => rfl
+  | cons l ls ih => simp [linesWithOffset, ih]
+
+/-- the offset recorded with a line is the byte length of everything before it -/
+theorem blocks_linesWithOffset_offset (ls : List (List Char)) (off : Nat)
+    (P Q : List (List Char × Nat)) (x : List Char × Nat)
+    (h : linesWithOffset ls off = P ++ x :: Q) : x.2 = off + utf8Len (P.flatMap (·.1)) := by
+  induction P generalizing ls off with
+  | nil =>
+    cases ls with
+    | nil => simp [linesWithOffset] at h
+    | cons l ls =>
+      simp only [linesWithOffset, List.nil_append, List.cons.injEq] at h
+      rw [← h.1]; simp [utf8Len]
+  | cons p P ih =>
+    cases ls with
+    | nil => simp [linesWithOffset] at h
+    | cons l ls =>
+      simp only [linesWithOffset, List.cons_append, List.cons.injEq] at h
+      have := ih ls _ h.2
+      rw [this, ← h.1]
+      simp only [List.flatMap_cons, utf8Len_append]
+      omega
+
+theorem blocks_frontmatter_offsets (cs : CharSpec) (s : List Char) (fm : FrontMatter)
+    (h : parseFrontmatter cs s = some fm) :
+    ∃ pre mid, s = pre ++ fm.yamlText ++ mid ++ fm.cookText ∧
+      fm.yamlOffset = utf8Len pre ∧ fm.cookOffset = utf8Len (pre ++ fm.yamlText ++ mid) := by
+  unfold parseFrontmatter at h
+  simp only at h
+  generalize hL : linesWithOffset (splitInclusive s) 0 = L at h
+  have htext : L.flatMap (·.1) = s := by
+    rw [← hL, blocks_linesWithOffset_text, blocks_splitInclusive_flatten]
+  have hsplit1 := List.takeWhile_append_dropWhile (p := fun l : List Char × Nat => !isFence cs l.1) (l := L)
+  split at h
+  · cases h
+  · rename_i f1 rest1 hd1
+    split at h
+    · cases h
+    · have hsplit2 := List.takeWhile_append_dropWhile (p := fun l : List Char × Nat => !isFence cs l.1) (l := rest1)
+      split at h
+      · cases h
+      · rename_i f2 rest2 hd2
+        simp only [Option.some.injEq] at h
+        rw [hd1] at hsplit1
+        rw [hd2] at hsplit2
+        generalize List.takeWhile (fun l : List Char × Nat => !isFence cs l.1) L = before at hsplit1
+        generalize hy : List.takeWhile (fun l : List Char × Nat => !isFence cs l.1) rest1 = yaml at hsplit2 h
+        have e1 : linesWithOffset (splitInclusive s) 0 = before ++ f1 :: rest1 := by rw [hL, hsplit1]
+        have e2 : linesWithOffset (splitInclusive s) 0 = (before ++ f1 :: yaml) ++ f2 :: rest2 := by
+          rw [e1, ← hsplit2]; simp
+        have o1 := blocks_linesWithOffset_offset _ _ _ _ _ e1
+        have o2 := blocks_linesWithOffset_offset _ _ _ _ _ e2
+        refine ⟨before.flatMap (·.1) ++ f1.1, f2.1, ?_, ?_, ?_⟩
+        · rw [← h, ← htext, ← hsplit1, ← hsplit2]
+          simp [List.flatMap_append, List.append_assoc]
+        · rw [← h]; simp only [o1, utf8Len_append]; omega
+        · rw [← h]
+          simp only [o2, List.flatMap_append, List.flatMap_cons, utf8Len_append]
+          omega
+
 end Cook
